@@ -16,6 +16,7 @@ import (
 	"sort"
 	"strconv"
 	"strings"
+	"sync"
 	"time"
 
 	"github.com/gogo/protobuf/proto"
@@ -115,8 +116,8 @@ func (o Op) coq() string {
 		return "OSwitch " + coqfmt.Bool(o.P != 0)
 	case "crash":
 		return "OCrash"
-	case "reopen":
-		return "OReopen"
+	case "reopen", "cancelclose":
+		return "OReopen" // cancelclose: the parent context is cancelled BEFORE Close (the order of pd-server's main on SIGTERM)
 	case "budget":
 		if o.P < 0 {
 			return "OBudget None"
@@ -339,6 +340,12 @@ func (w *world) exec(o *Op) string {
 			panic(err)
 		}
 		w.cancel()
+		w.openRS()
+	case "cancelclose":
+		w.cancel()
+		if err := w.st.Close(); err != nil {
+			panic(err)
+		}
 		w.openRS()
 	case "budget":
 		w.base.budget = o.P
@@ -571,7 +578,7 @@ func runCase(c Case) Case {
 	out := Case{Backend: c.Backend}
 	for i := 0; i < len(c.Ops); i++ {
 		o := c.Ops[i]
-		if o.K == "crash" || o.K == "reopen" || o.K == "crashinflush" {
+		if o.K == "crash" || o.K == "reopen" || o.K == "crashinflush" || o.K == "cancelclose" {
 			w.resetLoaded()
 		}
 		if o.K == "flush" && o.Par > 0 {
@@ -774,7 +781,7 @@ func genRegions(r *rng.R, k int) Case {
 			c.Ops = append(c.Ops, Op{K: "delregion", ID: saved[r.Intn(len(saved))]})
 		}
 		if rsMode && r.Pct(2) {
-			c.Ops = append(c.Ops, Op{K: []string{"flush", "crash", "reopen"}[r.Intn(3)]})
+			c.Ops = append(c.Ops, Op{K: []string{"flush", "crash", "reopen", "cancelclose"}[r.Intn(4)]})
 		}
 	}
 	// region-storage mode: regions that are both flushed and pending, some of them deleted before the next flush
@@ -818,7 +825,7 @@ func genRegions(r *rng.R, k int) Case {
 		c.Ops = append(c.Ops, Op{K: "budget", P: per * mult})
 	}
 	if rsMode && r.Pct(85) {
-		c.Ops = append(c.Ops, Op{K: "flush"})
+		c.Ops = append(c.Ops, Op{K: []string{"flush", "flush", "cancelclose", "reopen"}[r.Intn(4)]})
 	}
 	c.Ops = append(c.Ops, Op{K: []string{"loadregions", "loadonce", "loadregions"}[r.Intn(3)]})
 	if rsMode {
@@ -917,8 +924,10 @@ func fixedCases() []Case {
 	}
 	onceRetry := Case{Backend: "mem", Ops: append(append([]Op{{K: "switch", P: 1}}, six()...), Op{K: "flush"}, Op{K: "loadoncebad", ID: 28}, Op{K: "loadonce"}, Op{K: "loadonce"})}
 	oncePair := Case{Backend: "mem", Ops: append(append([]Op{{K: "switch", P: 1}}, six()...), Op{K: "flush"}, Op{K: "loadoncepair"}, Op{K: "loadonce"})}
+	// shutdown order of pd-server: cancel the context, then Close — the pending batch must still be written
+	cancelClose := Case{Backend: "mem", Ops: append(append([]Op{{K: "switch", P: 1}}, six()...), Op{K: "cancelclose"}, Op{K: "loadregions"})}
 	return []Case{
-		wrap, delBoth, pruneBoth, onceRetry, oncePair, tick, cif(true), cif(false), faults, raceCase(true), raceCase(false), raceCase(true), raceCase(false),
+		wrap, delBoth, pruneBoth, onceRetry, oncePair, cancelClose, tick, cif(true), cif(false), faults, raceCase(true), raceCase(false), raceCase(true), raceCase(false),
 		// S9 on the stores namespace and on the regions namespace
 		{Backend: "mem", Ops: []Op{{K: "savestore", ID: 1, P: 1}, {K: "savestore", ID: top, P: 2}, {K: "loadstores"}}},
 		{Backend: "mem", Ops: []Op{{K: "saveregion", ID: 1, V: one}, {K: "saveregion", ID: top, V: two}, {K: "loadregions"}}},
@@ -1024,6 +1033,27 @@ func main() {
 		}
 	} else {
 		master := rng.New(*seed)
+		{
+			// more keys than any page constant of the loaders (10000) only in the thorough tier; the quick tier stays
+			// above etcd-side and loader-side constants up to 5000
+			nkeys := 5200
+			if *tier == "thorough" {
+				nkeys = 10300
+			}
+			cli, _, err := etcdSrv.NewClient()
+			if err != nil {
+				panic(err)
+			}
+			rangeContract(R, "etcd", kv.NewEtcdKVBase(cli, "/c17contract"), nkeys)
+			cli.Close()
+			rangeContract(R, "mem", kv.NewMemoryKV(), nkeys)
+			dir, _ := os.MkdirTemp("", "c17-contract-")
+			if ldb, err := kv.NewLeveldbKV(dir); err == nil {
+				rangeContract(R, "leveldb", ldb, nkeys)
+				ldb.Close()
+			}
+			os.RemoveAll(dir)
+		}
 		for _, c := range fixedCases() {
 			emit(runCase(c))
 		}
@@ -1032,6 +1062,16 @@ func main() {
 		}
 		for k := 0; k < *n; k++ {
 			emit(runCase(genRegions(master.Fork(uint64(k)), k)))
+		}
+		if *tier == "thorough" {
+			// more regions in the etcd backend than any page size an etcd-side cap could plausibly have
+			r := master.Fork(950000)
+			c := Case{Backend: "etcd"}
+			for i := 0; i < 4300; i++ {
+				c.Ops = append(c.Ops, Op{K: "saveregion", ID: uint64(i)*5 + 2, V: genDisjoint(r, i, false)})
+			}
+			c.Ops = append(c.Ops, Op{K: "loadregions"}, Op{K: "loadcache"})
+			emit(runCase(c))
 		}
 		for k := 0; k < *nbig; k++ {
 			r := master.Fork(uint64(900000 + k))
@@ -1051,6 +1091,42 @@ func main() {
 	os.WriteFile(path.Join(*out, "cases.json"), b, 0o644)
 	if err := R.Write(path.Join(*out, "result.json")); err != nil {
 		panic(err)
+	}
+}
+
+// rangeContract: kv.Base.LoadRange(start, end, limit) must return min(limit, available) keys in key order (limit 0 = all),
+// also for limits above every constant the loaders use — loadRegions treats a page shorter than its limit as the end of the data.
+func rangeContract(R *res.Result, name string, b kv.Base, n int) {
+	var wg sync.WaitGroup
+	sem := make(chan struct{}, 32)
+	for i := 0; i < n; i++ {
+		wg.Add(1)
+		sem <- struct{}{}
+		go func(i int) {
+			defer wg.Done()
+			defer func() { <-sem }()
+			if err := b.Save(fmt.Sprintf("contract/%020d", i), "v"); err != nil {
+				panic(err)
+			}
+		}(i)
+	}
+	wg.Wait()
+	for _, limit := range []int{1, 99, 100, 1000, 4095, 4096, 4097, 5000, 10000, 10001, 0} {
+		keys, _, err := b.LoadRange("contract/", "contract0", limit)
+		if err != nil {
+			panic(err)
+		}
+		want := n
+		if limit > 0 && limit < n {
+			want = limit
+		}
+		R.Count("contract:" + name)
+		if len(keys) != want || !sort.StringsAreSorted(keys) {
+			R.Violate("C17:kv:loadrange-contract",
+				fmt.Sprintf("%s backend: LoadRange with limit %d over %d stored keys returned %d keys (expected %d, in key order): a loader that asks for a page of that size takes the short page for the end of the data",
+					name, limit, n, len(keys), want), map[string]interface{}{"probe": "loadrange-contract", "backend": name, "keys": n, "limit": limit})
+			return
+		}
 	}
 }
 
@@ -1123,7 +1199,7 @@ func checkGo(R *res.Result, c Case) {
 				known = false
 			}
 			rs = o.P != 0
-		case "flush", "reopen":
+		case "flush", "reopen", "cancelclose":
 			dirty = false
 			pending = map[uint64]bool{}
 		case "crash":
